@@ -104,6 +104,22 @@ def clause1_pop(ctx, P):
         ctx.ob("C03.1 R-GATE", sw, Q.ordinal_site(sw, c, P) + ":only-leaver", Q.must_pass(P, sw, c.block, leaver),
                "when a peer leaves, %s is applied to routing entries of OTHER callers as well: a third peer's disconnect decides the "
                "outcome of their requests" % P.srcname_of(c.callee))
+    # both sweeps walk the whole table unconditionally: every path through the function passes the loop header
+    for key in ("router.c:remove_peer_from_routing_table", "router.c:remove_routing_info_from_peer"):
+        g = P.fn(key)
+        loops = g.loops()
+        ok = len(loops) == 1
+        if ok:
+            (h, body), = loops.items()
+            dom = g.dominators()
+            exits = [b for b in range(g.nblocks) if g.term_inst(b).op == "ret"]
+            ok = all(h in dom[b] for b in exits)
+            t = g.term_inst(h)
+            cnd = P.cond(g, t.a[0]) if t.op == "br" and t.a else None
+            ok = ok and cnd is not None and cnd[0] != "const" and cnd[0][0] == "cmp" and cnd[0][1] == "ult" and cnd[0][2][0] == "phi" and cnd[0][3][0] == "const"
+        ctx.ob("C03.1 R-LOOP", g, "sweep-is-unconditional", ok,
+               "%s can return without walking every slot of the routing table (an early exit leaves entries of a leaving peer behind, "
+               "to be answered later through a dangling peer pointer)" % g.srcname)
     if n < 3:
         raise AnalysisBroken("expected >= 3 value-yielding removals from the routing table, found %d" % n)
     ctx.floor("C03.1 R-OWN", 3)
